@@ -86,6 +86,34 @@ def h_resolve(h: H):
         h.cover("RESOLVE:rejects")
 
 
+def h_resolve_stateless(h: H):
+    """STATELESS: a second call, made after the symlink layout changed (another realpath function), is decided on the
+    layout of ITS OWN instant - nothing is remembered from the first call."""
+    be, base = backend(h)
+    path = h.str("path")
+    os_t = OsTheory(h)
+    os_t.install(h.reg)
+    out1, val1 = h.run(f"{SB}:LocalStorageBackend._resolve_path", [be, path])
+    # the layout changes: realpath is now a different function
+    RP2 = z3.Function("os.realpath_after_layout_change", STR, STR)
+
+    def p_realpath2(I, a, k):
+        p = os_t.sz(I, a[0])
+        r = RP2(p)
+        I.ctx.assume(z3.And(NORMABS(r), REAL(r), z3.PrefixOf(SLASH, r)))
+        I.ctx.assume(z3.Or(r == SLASH, z3.Not(z3.SuffixOf(SLASH, r))))
+        return pyops.mk_str(r)
+    h.reg.modfuncs["os.path.realpath"] = p_realpath2
+    out2, val2 = h.run(f"{SB}:LocalStorageBackend._resolve_path", [be, path])
+    rb2 = RP2(base.z)
+    if out2 == "ok":
+        h.ensure("STATELESS:second-call-contained-in-the-CURRENT-canonical-root", inside(rb2, pyops.str_z(val2)))
+        h.ensure("STATELESS:second-call-canonicalised-under-the-CURRENT-layout",
+                 z3.Or(pyops.str_z(val2) == RP2(join2(base.z, path.z)), z3.PrefixOf(SLASH, path.z)))
+    else:
+        h.ensure("STATELESS:second-call-rejects-with-ValueError", val2.cls == "ValueError")
+
+
 def _replay_resolve(ob):
     return '''
 import sys, os, tempfile, shutil
@@ -107,6 +135,16 @@ try:
                 if not (f == real or f.startswith(real + os.sep)): bad.append((basep, p, f))
             except ValueError:
                 pass
+    # the same path string resolved twice while the layout changes in between
+    be = LocalStorageBackend(table)
+    os.makedirs(os.path.join(table, "data", "staging"))
+    be.exists("data/staging/x")
+    shutil.rmtree(os.path.join(table, "data", "staging")); os.symlink(out, os.path.join(table, "data", "staging"))
+    real = os.path.realpath(table)
+    try:
+        f = be._resolve_path("data/staging/x")
+        if not (f == real or f.startswith(real + os.sep)): bad.append(("stale resolution reused after the layout changed", f))
+    except ValueError: pass
 finally:
     shutil.rmtree(root, ignore_errors=True)
 print("replay resolve ->", bad or "contained")
@@ -222,6 +260,9 @@ print("replay write_file(root spellings) ->", bad or "contained")
 sys.exit(1 if bad else 0)
 '''
 
+
+register(Unit(P, "RESOLVE/stateless(two-calls,layout-changes)", h_resolve_stateless,
+              functions=[f"{SB}:LocalStorageBackend._resolve_path"], replay=_replay_resolve))
 
 for _m in METHODS:
     register(Unit(P, f"CONTAINED/{_m}", h_method(_m), functions=[f"{SB}:LocalStorageBackend.{_m}"], replay=_replay_methods))
